@@ -13,6 +13,12 @@ double convoluted_blossom(const double *x, size_t nx, const double *y, size_t ny
 template <typename Alloc>
 void splinetable<Alloc>::convolve(const uint32_t dim, const double* conv_knots, size_t n_conv_knots)
 {
+	if (dim >= ndim)
+		throw std::out_of_range("Convolution dimension "+std::to_string(dim)
+		                        +" does not exist in a table with "+std::to_string(ndim)+" dimensions");
+	if (!conv_knots || n_conv_knots < 2)
+		throw std::logic_error("A convolution kernel needs at least two knots");
+	
 	/* Construct the new knot field. */
 	size_t n_rho = 0;
 	const uint32_t convorder = order[dim] + n_conv_knots - 1;
